@@ -60,8 +60,8 @@ Definition stream_numbers : list (string * N) := [
   ("MozLinuxLimits", 0x4d7a0003%N); ("MozSoftErrors", 0x4d7a0004%N)].
 Definition stream_number (nm : string) : option N := option_map snd (find (fun p => String.eqb (fst p) nm) stream_numbers).
 (* every step of the plan that writes a directory entry names, in the source, the stream type the model gives it
-   (PlanProofs.stream_type, which Image.v uses), in plan order *)
+   (Plan.stream_type, which Image.v uses), in plan order *)
 Theorem step_types_as_modelled :
   map (fun p => (fst p, stream_number (snd p))) step_stream_names
-  = flat_map (fun p => match PlanProofs.stream_type (fst p) with Some t => [(fst p, Some t)] | None => [] end) stream_plan.
+  = flat_map (fun p => match Plan.stream_type (fst p) with Some t => [(fst p, Some t)] | None => [] end) stream_plan.
 Proof. reflexivity. Qed.
